@@ -41,7 +41,7 @@ def main():
         traceback.print_exc()
         rec.notes["crash"] = traceback.format_exc()[-2000:]
         rec.notes["contract_evaluations"] = contracts.evaluations()
-        rec.dump(out + ".crashed", cfg)
+        rec.dump(out, cfg)  # what was observed (and any violation found) before the crash still counts
         return 3
     rec.notes["contract_evaluations"] = contracts.evaluations()
     rec.dump(out, cfg)
